@@ -1,15 +1,299 @@
-"""C20  Traversals visit exactly the reachable gates in a valid order
+"""C20  Traversals visit exactly the reachable gates in a valid order.
 
-P: (deductive obligations for this property are added in vlib/props/C20.py as they are built)
-B: vlib/bounded/C20.py (bounded stand-in; never counted as proved)."""
+P: Circuit.top_sort in BOTH directions — Kahn's algorithm over operand / user multisets — on an arbitrary well-formed
+   circuit: every yielded element is a gate, no gate is yielded twice, every gate is yielded only after ALL of
+   its operands (strictly earlier positions), the work list never holds a gate twice, no KeyError/IndexError;
+   and the completeness STEP: when the generator stops, a gate whose operands were all yielded has been yielded
+   (rule R2, induction on the rank of a well-formed circuit, lifts this to "every gate is yielded").
+   Invariants: in-degree map = number of operand positions not yet yielded (ghost counting function with its
+   defining lemmas), work list = exactly the unyielded gates with in-degree 0; inner loop over the users list
+   by the prefix-count view.
+B: top_sort in both directions, dfs/bfs from all start sets, hook discipline, cycle check (vlib/bounded/C20.py)."""
+import z3
+
 from .. import env
-from .common import STD_TRUSTED, STD_ASSUME, run_bounded
+from ..pyvc.values import Sym, LabelSort, GT, Obj, GenV, Unsupported
+from ..pyvc.prove import Prover, Contract
+from ..pyvc import circuit_model as CM
+from .common import new_interp, finish_refuted, canary, STD_TRUSTED, STD_ASSUME, run_bounded
 
-LEVEL = 'exploration'
+LEVEL = 'other'
+CIRC = 'cirbo/core/circuit/circuit.py'
+I = z3.IntSort()
+B = z3.BoolSort()
+
+
+class Dir:
+    """the two directions of top_sort: predecessors of l are its operands (inverse=True) or its users (inverse=False)"""
+
+    def __init__(self, S0, inverse):
+        self.S0, self.inverse = S0, inverse
+
+    def npred(self, l):
+        return self.S0.nops(l) if self.inverse else self.S0.tot(l)
+
+    def pred(self, l, i):
+        return self.S0.op(l, i) if self.inverse else self.S0.uelem(l, i)
+
+    def predcount(self, l, p):          # occurrences of p among the predecessors of l
+        return self.S0.opc(l, p) if self.inverse else self.S0.cnt(l, p)
+
+    def nsucc(self, cur):
+        return self.S0.tot(cur) if self.inverse else self.S0.nops(cur)
+
+    def succ(self, cur, k):
+        return self.S0.uelem(cur, k) if self.inverse else self.S0.op(cur, k)
+
+    def succcount(self, cur, u):        # occurrences of u among the successors of cur  (= predcount(u, cur) by W3)
+        return self.S0.cnt(cur, u) if self.inverse else self.S0.opc(cur, u)
+
+
+class Ghost:
+    """ghost state of the generator: yielded set P, yield positions ypos, number yielded c, and
+    cni(l) = number of operand positions of l whose operand is not in P (a counting function; its defining
+    facts are background lemmas about finite counting, assumed for every (P, cni) pair that is built by the
+    lemma  cni_{P ∪ {p}}(l) = cni_P(l) − count(operands(l), p)  for p ∉ P)."""
+    _n = 0
+
+    def __init__(self, P, ypos, c, cni):
+        self.P, self.ypos, self.c, self.cni = P, ypos, c, cni
+
+    @staticmethod
+    def fresh(ctx):
+        Ghost._n += 1
+        k = Ghost._n
+        P = z3.Function(f'P!{k}', LabelSort, B)
+        y = z3.Function(f'ypos!{k}', LabelSort, I)
+        cni = z3.Function(f'cni!{k}', LabelSort, I)
+        return Ghost(lambda l: P(l), lambda l: y(l), ctx.fresh(I, 'ycount'), lambda l: cni(l))
+
+    def counting_facts(self, ctx, D):
+        Ghost._n += 1
+        w = z3.Function(f'wit!{Ghost._n}', LabelSort, I)
+        l, p = z3.Consts('l!cf p!cf', LabelSort)
+        i = z3.Int('i!cf')
+        P, cni = self.P, self.cni
+        ctx.assume(z3.ForAll([l], z3.And(cni(l) >= 0, cni(l) <= D.npred(l))))
+        ctx.assume(z3.ForAll([l], z3.Implies(cni(l) > 0, z3.And(w(l) >= 0, w(l) < D.npred(l), z3.Not(P(D.pred(l, w(l))))))))
+        ctx.assume(z3.ForAll([l, i], z3.Implies(z3.And(i >= 0, i < D.npred(l), z3.Not(P(D.pred(l, i)))), cni(l) > 0)))
+        ctx.assume(z3.ForAll([l, p], z3.Implies(z3.Not(P(p)), cni(l) >= D.predcount(l, p))))
+        self.w = lambda x: w(x)
+
+
+class Outer:
+    """while queue: … yield current_elem"""
+
+    def __init__(self, c):
+        self.c = c
+
+    def havoc(self, it, env):
+        ctx, S0 = it.ctx, self.c.S0
+        g = Ghost.fresh(ctx)
+        g.counting_facts(ctx, self.c.D)
+        it.ctx.ghostG = g
+        Ghost._n += 1
+        ind = z3.Function(f'ind!{Ghost._n}', LabelSort, I)
+        mem = z3.Function(f'mem!{Ghost._n}', LabelSort, B)
+        env['indegree_map'] = CM.IntMap(lambda l: S0.dom(l), lambda l: ind(l))
+        env['queue'] = CM.LabelBag(lambda l: mem(l))
+
+    def formulas(self, env, l, l2, i):
+        S0, G = self.c.S0, self.c.it.ctx.ghostG
+        ind, q = env['indegree_map'], env['queue']
+        P, ypos, c, cni = G.P, G.ypos, G.c, G.cni
+        return [('yielded-are-gates', z3.Implies(P(l), S0.dom(l))),
+                ('map-keys-are-the-gates', ind.dom(l) == S0.dom(l)),
+                ('worklist-is-unyielded-with-indegree-0', q.member(l) == z3.And(S0.dom(l), z3.Not(P(l)), ind.val(l) == 0)),
+                ('indegree-counts-unyielded-operand-positions', z3.Implies(S0.dom(l), ind.val(l) == cni(l))),
+                ('predecessors-yielded-earlier', z3.Implies(z3.And(P(l), i >= 0, i < self.c.D.npred(l)), z3.And(P(self.c.D.pred(l, i)), ypos(self.c.D.pred(l, i)) < ypos(l)))),
+                ('positions-below-count', z3.And(c >= 0, z3.Implies(P(l), z3.And(ypos(l) >= 0, ypos(l) < c)))),
+                ('positions-injective', z3.Implies(z3.And(P(l), P(l2), ypos(l) == ypos(l2)), l == l2))]
+
+    def inv(self, it, env, k):
+        ctx = it.ctx
+        return self.formulas(env, ctx.fresh(LabelSort, 'linv'), ctx.fresh(LabelSort, 'l2inv'), ctx.fresh(I, 'iinv'))
+
+    def inv_assume(self, it, env, k):
+        l, l2 = z3.Consts('l!oi l2!oi', LabelSort)
+        i = z3.Int('i!oi')
+        return [(nm, z3.ForAll([l, l2, i], f)) for nm, f in self.formulas(env, l, l2, i)]
+
+    def on_yield(self, it, env, value):
+        ctx, S0, G = it.ctx, self.c.S0, it.ctx.ghostG
+        cur = it.label_term(it.getattr(value, 'label'))
+        ctx.check('yielded-element-is-a-gate', S0.dom(cur))
+        ctx.check('yielded-at-most-once', z3.Not(G.P(cur)), {'witness': 'yielded-twice'})
+        P, ypos, c, cni = G.P, G.ypos, G.c, G.cni
+        D = self.c.D
+        g2 = Ghost(lambda l: z3.Or(l == cur, P(l)), lambda l: z3.If(l == cur, c, ypos(l)), c + 1, lambda l: cni(l) - D.predcount(l, cur))
+        g2.counting_facts(ctx, D)
+        it.ctx.ghostG = g2
+        self.c.yielded_in_loop = True
+
+
+class Inner:
+    """for successor in users(current): indegree_map[successor] -= 1; if it is 0: queue.append(successor)"""
+
+    def __init__(self, c):
+        self.c = c
+        self.base = None
+
+    def applies(self, it, env, iterable):
+        return isinstance(iterable, (CM.UsersRef, CM.OpsSeq)) and iterable.concrete_len(it) is None
+
+    def _setup(self, it, env, iterable=None):
+        if self.base is not None:
+            return
+        ctx, S0 = it.ctx, self.c.S0
+        ind, q = env['indegree_map'], env['queue']
+        self.base = (ind.dom, ind.val, q.member)
+        cur = it.label_term(it.getattr(env['current_elem'], 'label'))
+        self.cur = cur
+        Ghost._n += 1
+        pcu = z3.Function(f'pcu!{Ghost._n}', I, LabelSort, I)
+        self.pcu = pcu
+        D = self.c.D
+        n = D.nsucc(cur)
+        k, u = z3.Int('k!pcu'), z3.Const('u!pcu', LabelSort)
+        ctx.assume(z3.ForAll([u], pcu(0, u) == 0))
+        ctx.assume(z3.ForAll([k, u], z3.Implies(z3.And(k >= 0, k < n), pcu(k + 1, u) == pcu(k, u) + z3.If(D.succ(cur, k) == u, 1, 0)), patterns=[pcu(k + 1, u)]))
+        ctx.assume(z3.ForAll([u], pcu(n, u) == D.succcount(cur, u)))
+        ctx.assume(z3.ForAll([k, u], z3.Implies(z3.And(k >= 0, k <= n), z3.And(pcu(k, u) >= 0, pcu(k, u) <= D.succcount(cur, u))), patterns=[pcu(k, u)]))
+
+    def closed(self, k):
+        d0, v0, m0 = self.base
+        pcu = self.pcu
+
+        def val(u):
+            return v0(u) - pcu(k, u)
+
+        def mem(u):
+            return z3.Or(m0(u), z3.And(v0(u) >= 1, pcu(k, u) >= v0(u)))
+        return d0, val, mem
+
+    def inv(self, it, env, k):
+        self._setup(it, env)
+        ind, q = env['indegree_map'], env['queue']
+        d, v, m = self.closed(k)
+        u = it.ctx.fresh(LabelSort, 'uinv')
+        return [('map-keys', ind.dom(u) == d(u)), ('decremented-by-prefix-count', z3.Implies(d(u), ind.val(u) == v(u))), ('worklist', q.member(u) == m(u))]
+
+    def install(self, it, env, k):
+        self._setup(it, env)
+        d, v, m = self.closed(k)
+        env['indegree_map'] = CM.IntMap(d, v)
+        env['queue'] = CM.LabelBag(m)
+
+
+class TopSort(Contract):
+    relpath, qualname = CIRC, 'Circuit.top_sort'
+
+    def __init__(self, inverse):
+        self.inverse = inverse
+        self.name = f'top_sort/inverse={inverse}'
+
+    def setup(self, it, ctx):
+        c, h = CM.make_circuit(it, ctx, tag='c')
+        S0 = h.S
+        self.S0 = S0
+        self.D = Dir(S0, self.inverse)
+        CM.install_get_gate_users_contract(it)
+        l = z3.Const('L!rk', LabelSort)
+        ctx.assume(z3.ForAll([l], S0.rank(l) >= 0))
+        # initial ghost: nothing yielded; cni = number of operand positions (counting over the empty set)
+        self.it = it
+        ctx.ghostG = Ghost(lambda x: z3.BoolVal(False), lambda x: z3.IntVal(0), z3.IntVal(0), lambda x: self.D.npred(x))
+        ctx.ghostG.counting_facts(ctx, self.D)
+        self.yielded_in_loop = False
+        self.outer, self.inner = Outer(self), Inner(self)
+        it.loop_specs[(CIRC + '::Circuit.top_sort', 1)] = self.outer
+        it.loop_specs[(CIRC + '::Circuit.top_sort', 2)] = self.inner
+        return [c], {'inverse': self.inverse}, {'h': h, 'S0': S0}
+
+    def execute(self, it, fv, args, kwargs):
+        g = it.call_function(fv, args, kwargs, force_inline=True)
+        if not isinstance(g, GenV):
+            raise Unsupported('top_sort is not a generator')
+        for _ in g.it:
+            raise Unsupported('yield outside the main loop of top_sort')
+        return None
+
+    def post(self, it, ctx, result, st):
+        S0, G = st['S0'], ctx.ghostG
+        l = ctx.fresh(LabelSort, 'lpost')
+        i = ctx.fresh(I, 'ipost')
+        P, ypos = G.P, G.ypos
+        D = self.D
+        nm = 'order/every-yielded-gate-after-all-its-operands' if self.inverse else 'order/every-yielded-gate-after-all-its-users'
+        yield (nm, z3.Implies(z3.And(P(l), i >= 0, i < D.npred(l)), z3.And(P(D.pred(l, i)), ypos(D.pred(l, i)) < ypos(l))), {'witness': 'order'})
+        yield ('yielded-are-gates', z3.Implies(P(l), S0.dom(l)))
+        # completeness step (R2 lifts it to every gate): an unyielded gate has an unyielded operand
+        yield ('completeness-step/unyielded-gate-has-an-unyielded-predecessor',
+               z3.Implies(z3.And(S0.dom(l), z3.Not(P(l))), z3.And(G.w(l) >= 0, G.w(l) < D.npred(l), z3.Not(P(D.pred(l, G.w(l)))))), {'witness': 'completeness'})
+        yield ('circuit-unchanged', z3.BoolVal(not [e for e in st['h'].events if e[0] in ('gate-write', 'gate-del', 'users-del', 'users-alias')]))
+
+    def on_raise(self, it, ctx, exc, st):
+        n = exc.cls.name if isinstance(exc, Obj) else repr(exc)
+        S0 = st['S0']
+        if n == 'CircuitIsCyclicalError':
+            l = ctx.fresh(LabelSort, 'lc')
+            # raised before anything is yielded and only if no gate is operand-free; a non-empty WF circuit always has one
+            # (minimal rank, rule R2), so on WF circuits this path is infeasible
+            yield ('cyclical-only-without-source', z3.And(z3.Implies(S0.dom(l), self.D.npred(l) >= 1), S0.size > 0), {'raised': n})
+        else:
+            yield ('no-raise', z3.BoolVal(False), {'raised': n, 'witness': 'raises-' + n})
+
+
+class GetGateUsers(Contract):
+    """body of get_gate_users against the contract used inside top_sort: a view of users[label]"""
+    relpath, qualname, name = CIRC, 'Circuit.get_gate_users', 'get_gate_users/meets-contract'
+
+    def setup(self, it, ctx):
+        c, h = CM.make_circuit(it, ctx, tag='c')
+        lab = z3.Const('lab', LabelSort)
+        return [c, Sym(lab)], {}, {'h': h, 'S0': h.S, 'lab': lab}
+
+    def post(self, it, ctx, result, st):
+        S0, lab = st['S0'], st['lab']
+        u = ctx.fresh(LabelSort, 'u')
+        yield ('only-for-gates', S0.dom(lab))
+        from ..pyvc.values import VList
+        if isinstance(result, VList):
+            yield ('empty-list-means-no-users', z3.And(z3.BoolVal(len(result.items) == 0), S0.cnt(lab, u) == 0, S0.tot(lab) == 0))
+        else:
+            yield ('is-the-users-list-of-the-label', z3.BoolVal(isinstance(result, CM.UsersRef)) if not isinstance(result, CM.UsersRef) else result.kt == lab)
+
+    def on_raise(self, it, ctx, exc, st):
+        n = exc.cls.name if isinstance(exc, Obj) else repr(exc)
+        if n == 'GateDoesntExistError':
+            yield ('raises-only-for-absent-gate', z3.Not(st['S0'].dom(st['lab'])), {'raised': n})
+        else:
+            yield ('no-other-raise', z3.BoolVal(False), {'raised': n, 'witness': 'raises-' + n})
 
 
 def run(rep):
     quick = env.TIER != 'thorough'
-    rep.trusted_base = list(STD_TRUSTED)
+    rep.trusted_base = list(STD_TRUSTED) + ['abstract circuit model vlib/pyvc/circuit_model.py (incl. positional view of users lists)',
+                                            'background lemmas on finite counting: cni_P(l) = #{i : op(l,i) ∉ P} is ≥ 0, ≤ arity, zero iff all operands in P, ≥ count(operands, p) for p ∉ P, and decreases by count(operands, p) when p is added',
+                                            'rule R2 (induction on rank): the completeness step implies that every gate of a well-formed circuit is yielded; a non-empty well-formed circuit has an operand-free gate']
+    for a in STD_ASSUME:
+        rep.assume(a)
+    rep.assume('work list modelled as a duplicate-free bag with an arbitrary pop order (absence of duplicates is proved; the order of pops is irrelevant to the clauses)')
+    rep.assume('dfs, bfs, hook discipline and the cycle check are covered by the bounded stand-in only')
+    rep.assume('contract of get_gate_users used at its call sites: a list view with count cnt(label, .) and length tot(label) (absent key = empty list); its body is checked against it under C20/get_gate_users')
+    it = new_interp()
+    pv = Prover(rep, it, 'C20')
+    for inv in (True, False):
+        it.loop_specs.clear()
+        it.contracts.clear()
+        pv.run_contract(TopSort(inv))
+    it.loop_specs.clear()
+    it.contracts.clear()
+    pv.run_contract(GetGateUsers())
+    x, y = z3.Ints('x y')
+    canary(rep, pv, 'C20/canary/decrement-keeps-zero', [x >= 1], x - 1 == 0)
+    refuted = pv.discharge(env.NPROC)
+    finish_refuted(rep, pv, refuted)
     run_bounded(rep, 'C20', quick)
-    rep.extra['explanation'] = 'bounded stand-in only in this build'
+    rep.extra['explanation'] = ('Kahn-style top_sort(inverse=True) proved from the real source with inductive invariants (ghost yielded set, counting function, prefix counts); '
+                                'the other traversals: bounded stand-in.')
